@@ -42,6 +42,7 @@ def step (s : St) (line : String) : St × String :=
   | ["closeerr"] => (s, "ok")
   | ["failw"] => u (Iscp.Rec.step s .failW)
   | ["failr"] => u (failRead s)
+  | ["failr", _] => u (failRead s)   -- the kind of read error (anything but the peer's normal close) makes no difference
   | ["deliver", h] => (match bytesOfHex h with | some b => u (deliver s b) | none => (s, "bad-op"))
   | ["ping"] => (match deliver s pingMsg with
       | (s', .wrote i) => (s', "pong " ++ toString i)
